@@ -168,6 +168,9 @@ pub enum AbsorbVia {
     Update,
     Write,
     WriteAll,
+    /// Write::write_vectored over the fragment cut into slices (sizes from `cuts`, cyclically; short and long ones
+    /// mixed), repeated on the unconsumed rest until everything is written
+    WriteVectored { cuts: Vec<u32> },
     /// std::io::copy(&mut SimReader, &mut hasher)
     IoCopy(ReaderScript),
     /// hasher.update_reader(SimReader)
@@ -270,6 +273,9 @@ pub enum Op {
     CloneR { r: usize, new: usize },
 
     OneShot { mode: Mode, data: usize, off: usize, len: usize },
+    /// the one-shot entry points of the RustCrypto traits: which 0 Digest::digest, 1 ExtendableOutput::digest_xof
+    /// (n bytes), 2 Digest::new_with_prefix + finalize, 3 Digest::chain_update chain
+    TraitOneShot { data: usize, off: usize, len: usize, which: u8, n: usize },
     /// merge two cv slots; result in cv slot `out` (NonRoot) or checked at once (Root / RootXof)
     Merge { l: usize, r: usize, mode: Mode, kind: MergeKind, out: usize, n: usize },
     HelperLeftLen { n: u64 },
@@ -364,6 +370,7 @@ impl Op {
             Op::Position { .. } => "Position",
             Op::CloneR { .. } => "CloneR",
             Op::OneShot { .. } => "OneShot",
+            Op::TraitOneShot { .. } => "TraitOneShot",
             Op::Merge { .. } => "Merge",
             Op::HelperLeftLen { .. } => "HelperLeftLen",
             Op::HelperMaxLen { .. } => "HelperMaxLen",
